@@ -33,11 +33,8 @@ pub open spec fn object_loop2(o: &crate::nitrogql_ast::type_system::ObjectTypeDe
     object_loop1(o, d, o.fields@.len() as int) && forall|i: int| 0 <= i < m ==> #[trigger] implements_ok(d, o.name, o.fields@, o.implements@, i)
 }
 
-//@ contract nitrogql_checker::type_system_checker ::fn check_object
+//@ fragment contract_check_object.rs
 //@   unexternal
-//@   ensures [C05.ts_object.frame] crate::extends_errs(old(result)@, final(result)@)
-//@   ensures [C05.ts_object.sound] final(result)@.len() == old(result)@.len() ==> crate::valid_object(object, definitions)
-//@   ensures [C05.ts_object.complete] crate::valid_object(object, definitions) ==> final(result)@.len() == old(result)@.len()
 //@   prefix broadcast use crate::str_key_model;
 //@   loops 2
 //@   loop 0 iter_name it
@@ -73,11 +70,8 @@ pub open spec fn iface_loop2(o: &crate::nitrogql_ast::type_system::InterfaceType
     iface_loop1(o, d, o.fields@.len() as int) && forall|i: int| 0 <= i < m ==> #[trigger] iface_implements_ok(o, d, i)
 }
 
-//@ contract nitrogql_checker::type_system_checker ::fn check_interface
+//@ fragment contract_check_interface.rs
 //@   unexternal
-//@   ensures [C05.ts_interface.frame] crate::extends_errs(old(result)@, final(result)@)
-//@   ensures [C05.ts_interface.sound] final(result)@.len() == old(result)@.len() ==> crate::valid_interface(interface, definitions)
-//@   ensures [C05.ts_interface.complete] crate::valid_interface(interface, definitions) ==> final(result)@.len() == old(result)@.len()
 //@   prefix broadcast use crate::str_key_model;
 //@   loops 2
 //@   loop 0 iter_name it
